@@ -635,6 +635,11 @@ def degenerate_specs():
         ("deg|constant-derivatives", spec([("x", n("1.0")), ("y", n("2.0"))], [("p", n("0.5"))], [("dx_dt", n("1.5")), ("dy_dt", L.neg(n("0.25")))])),
         ("deg|parameter-only-derivative", spec([("x", n("1.0"))], [("p", n("0.5")), ("q", n("1.5"))], [("dx_dt", L.bin_("*", v("p"), v("q")))])),
         ("deg|intermediate-constant", spec([("x", n("1.0"))], [("p", n("0.5"))], [("c", n("3")), ("dx_dt", L.bin_("-", v("c"), L.bin_("*", v("p"), v("x"))))])),
+        # an intermediate that is literally zero (switched-off stimulus), used directly and through another intermediate
+        ("deg|intermediate-zero", spec([("x", n("1.0")), ("y", n("2.0"))], [("p", n("0.5"))],
+                                       [("i_stim", n("0")), ("i_tot", L.bin_("+", v("i_stim"), L.bin_("*", v("p"), v("x")))), ("off", n("0.0")),
+                                        ("dx_dt", L.bin_("-", v("i_stim"), v("x"))), ("dy_dt", L.bin_("+", L.bin_("-", v("i_tot"), v("y")), v("off")))])),
+        ("deg|intermediate-one-and-minus-one", spec([("x", n("1.0"))], [("p", n("0.5"))], [("one", n("1")), ("mone", L.neg(n("1"))), ("dx_dt", L.bin_("+", L.bin_("*", v("one"), v("p")), L.bin_("*", v("mone"), v("x"))))])),
         ("deg|six-states", spec([(f"s{i}", n(str(i + 0.5))) for i in range(6)], [("p", n("0.5"))],
                                 [(f"ds{i}_dt", L.bin_("-", L.bin_("*", n(str(i + 1)), v(f"s{(i + 1) % 6}")), L.bin_("*", v("p"), v(f"s{i}")))) for i in range(6)])),
         ("deg|names-by-case", spec([("X", n("1.0")), ("x", n("2.0"))], [("g_K", n("0.5")), ("G_K", n("1.5"))],
